@@ -101,17 +101,21 @@ def passes (cfg : Config) (taken : List Str) (env : Env) (wild : List Tmpl) : Na
 def sinit (statics wildcard : List Tmpl) (vars : Env) (reserved : List Str) : SState :=
   { statics := statics, wildcard := wildcard, num := 1, taken := reserved, base := vars, dead := false }
 
-/-- one request with bindings `b`: namespace = initial variables updated with `b` -/
-def srequest (cfg : Config) (st : SState) (b : Env) : SState × Result :=
+/-- one request with bindings `b` and a budget of `fuel` wildcard passes:
+    namespace = initial variables updated with `b` -/
+def srequestFuel (cfg : Config) (fuel : Nat) (st : SState) (b : Env) : SState × Result :=
   if st.dead then (st, .error .valueError)
   else
     let env := envUpdate st.base b
     match firstFresh cfg st.taken env st.statics st.num with
     | (some name, rest, num') => ({ st with statics := rest, num := num', taken := name :: st.taken }, .name name)
     | (none, _, num') =>
-      match passes cfg st.taken env st.wildcard (passBound + 1) num' with
+      match passes cfg st.taken env st.wildcard fuel num' with
       | (some name, num'') => ({ st with statics := [], num := num'', taken := name :: st.taken }, .name name)
       | (none, num'') => ({ st with statics := [], num := num'', dead := true }, .error .valueError)
+
+/-- one request: the give-up bound is a budget of `passBound + 1` passes for this request -/
+def srequest (cfg : Config) (st : SState) (b : Env) : SState × Result := srequestFuel cfg (passBound + 1) st b
 
 def srun (cfg : Config) : SState → List Env → List Result
   | _, [] => []
